@@ -20,6 +20,10 @@ fn main() {
             let code = lqv_core::run_property(&args[2], tier);
             std::process::exit(code);
         }
+        "worker" => match args[2].as_str() {
+            "c11-table" => lqv_core::props::c11::print_table(),
+            _ => usage(),
+        },
         _ => usage(),
     }
 }
